@@ -179,8 +179,15 @@ def PROB_MULT : Nat := Gen.PROB_MULT
 def TWO64 : Nat := 18446744073709551616
 
 /-- does the write with (already incremented) op counter `ops` sweep?
-    `ops.wrapping_mul(2654435761).is_multiple_of(N)`; `is_multiple_of(0)` ⇔ `== 0`. -/
+    `(u128::from(ops) * 2654435761).is_multiple_of(u128::from(N))` - the product of a `u64` and the
+    32-bit multiplier always fits `u128`, so there is no wrap-around; `is_multiple_of(0)` ⇔ `== 0`. -/
 def Prob.fires (ops modulus : Nat) : Bool :=
+  let h := ops * PROB_MULT
+  if modulus = 0 then h = 0 else h % modulus = 0
+
+/-- the trigger as it was before the repair (`ops.wrapping_mul(2654435761).is_multiple_of(N)`, a
+    64-bit wrapping product); kept only to state what was wrong with it (`C07_wrapped_trigger_gap`) -/
+def Prob.firesWrapped (ops modulus : Nat) : Bool :=
   let h := (ops * PROB_MULT) % TWO64
   if modulus = 0 then h = 0 else h % modulus = 0
 
